@@ -84,7 +84,14 @@ type Failure struct {
 	// predicate), used to match entries of known_findings.json.
 	Key string
 	Msg string
+	// Timing: the verdict rests on a wall-clock bound (a deadline that expired, a wait that was given up). Such a
+	// failure is reported only if the same case fails again when it is executed again at once (up to two more times);
+	// otherwise it is counted under INCONCLUSIVE:unreproduced <key> and the case is inconclusive (DESIGN 2.7).
+	Timing bool
 }
+
+// Timed marks the failure as resting on a wall-clock bound.
+func (f *Failure) Timed() *Failure { f.Timing = true; return f }
 
 func (f *Failure) Error() string { return f.Key + ": " + f.Msg }
 
@@ -317,6 +324,19 @@ func Run[C any](t *testing.T, p Prop[C]) {
 			writeJournal(p.ID, p.Name, raw)
 		}
 		f := execute(p, c, o)
+		if f != nil && f.Timing {
+			again := false
+			for k := 0; k < 2 && !again; k++ {
+				if f2 := execute(p, c, &Obs{}); f2 != nil {
+					again, f = true, f2
+				}
+			}
+			if !again {
+				o.labels = append(o.labels, "INCONCLUSIVE:unreproduced "+f.Key)
+				o.inconclusive = "a failure that rests on a wall-clock bound did not reproduce: " + f.Error()
+				f = nil
+			}
+		}
 		global.mu.Lock()
 		if o.inconclusive == "" || f != nil {
 			st.Evaluations++ // an inconclusive case was generated but not judged: it is reported under its label only
